@@ -16,3 +16,36 @@ package mangos
 //@
 //@ interface ProtocolPipe.GetPrivate
 //@   pure
+//@
+//@ interface ProtocolPipe.SendMsg
+//@   ensures !isnil(result) ==> arg0.Body == old(arg0.Body)
+//@
+//@ interface ProtocolBase.SendMsg
+//@   ensures !isnil(result) ==> arg0.Body == old(arg0.Body)
+//@
+//@ interface ProtocolContext.SendMsg
+//@   ensures !isnil(result) ==> arg0.Body == old(arg0.Body)
+//@
+//@ interface TranPipe.Send
+//@   ensures !isnil(result) ==> arg0.Body == old(arg0.Body)
+//@
+//@ func NewMessage
+//@   trusted
+//@   own_primitive
+//@   fresh_only
+//@   ensures result != nil && len(result.Body) == 0 && len(result.Header) == 0 && cap(result.Body) >= sz
+//@
+//@ func newMsg
+//@   own_primitive
+//@
+//@ func (*Message).Free
+//@   own_primitive
+//@
+//@ func (*Message).Clone
+//@   own_primitive
+//@
+//@ func (*Message).MakeUnique
+//@   own_primitive
+//@
+//@ func (*Message).Dup
+//@   own_primitive
